@@ -86,6 +86,13 @@ def run(ctx):
         ctx.run_rule("R7-not-implemented", r7_overrides, F)
         ctx.run_rule("R8-path-walkers", r8_walkers, F)
         ctx.run_rule("R9-index-allocator", r9_allocator, F)
+        A_ = ctx.facts("A", required=False)
+        if A_ is not None:
+            from rules import c20
+            fl_ = (vf.NOUPD[0], vf.NOCAST[0])
+            vf.NOUPD[0], vf.NOCAST[0] = True, True          # the rendering C20's rules were written under
+            ctx.run_rule("R4-vfs-siblings", c20.r4_vfs, A_)        # the async Vfs operations route and convert like their sync siblings (shared with C20)
+            vf.NOUPD[0], vf.NOCAST[0] = fl_
     finally:
         vf.NOUPD[0] = False
     ctx.assumptions += ["backends number their own inodes consistently", "stale inode numbers after slot reuse are not examined"]
